@@ -474,7 +474,8 @@ impl ViNormal {
 
 		let motion = 'motion_parse: {
 			let mut chars_clone = chars.clone();
-			let count = self.parse_count(&mut chars_clone).unwrap_or(1);
+			let count_given = self.parse_count(&mut chars_clone);
+			let count = count_given.unwrap_or(1);
 
 			let Some(ch) = chars_clone.next() else {
 				break 'motion_parse None
@@ -502,7 +503,10 @@ impl ViNormal {
 					match ch {
 						'g' => {
 							chars_clone.next();
-							break 'motion_parse Some(MotionCmd(count, Motion::BeginningOfBuffer))
+							break 'motion_parse Some(match count_given {
+								Some(line) => MotionCmd(line, Motion::GotoLine),
+								None => MotionCmd(1, Motion::BeginningOfBuffer),
+							})
 						}
 						'e' => break 'motion_parse Some(MotionCmd(count, Motion::WordMotion(To::End, Word::Normal, Direction::Backward))),
 						'E' => break 'motion_parse Some(MotionCmd(count, Motion::WordMotion(To::End, Word::Big, Direction::Backward))),
@@ -587,7 +591,11 @@ impl ViNormal {
 				'n' => break 'motion_parse Some(MotionCmd(count, Motion::NextMatch)),
 				'N' => break 'motion_parse Some(MotionCmd(count, Motion::PrevMatch)),
 				'%' => break 'motion_parse Some(MotionCmd(count, Motion::ToDelimMatch)),
-				'G' => break 'motion_parse Some(MotionCmd(count, Motion::EndOfBuffer)),
+				'G' => break 'motion_parse Some(match count_given {
+					// With a count, G goes to that line
+					Some(line) => MotionCmd(line, Motion::GotoLine),
+					None => MotionCmd(1, Motion::EndOfBuffer),
+				}),
 				';' => break 'motion_parse Some(MotionCmd(count, Motion::RepeatMotion)),
 				',' => break 'motion_parse Some(MotionCmd(count, Motion::RepeatMotionRev)),
 				'|' => break 'motion_parse Some(MotionCmd(count, Motion::ToColumn)),
@@ -1021,7 +1029,8 @@ impl ViNormal {
 
 		let motion = 'motion_parse: {
 			let mut chars_clone = chars.clone();
-			let count = self.parse_count(&mut chars_clone).unwrap_or(1);
+			let count_given = self.parse_count(&mut chars_clone);
+			let count = count_given.unwrap_or(1);
 
 			let Some(ch) = chars_clone.next() else {
 				break 'motion_parse None
@@ -1053,7 +1062,10 @@ impl ViNormal {
 					match ch {
 						'g' => {
 							chars_clone.next();
-							break 'motion_parse Some(MotionCmd(count, Motion::BeginningOfBuffer))
+							break 'motion_parse Some(match count_given {
+								Some(line) => MotionCmd(line, Motion::GotoLine),
+								None => MotionCmd(1, Motion::BeginningOfBuffer),
+							})
 						}
 						'e' => break 'motion_parse Some(MotionCmd(count, Motion::WordMotion(To::End, Word::Normal, Direction::Backward))),
 						'E' => break 'motion_parse Some(MotionCmd(count, Motion::WordMotion(To::End, Word::Big, Direction::Backward))),
@@ -1136,7 +1148,11 @@ impl ViNormal {
 					break 'motion_parse Some(MotionCmd(count, Motion::CharSearch(Direction::Backward, Dest::Before, *ch)))
 				}
 				'%' => break 'motion_parse Some(MotionCmd(count, Motion::ToDelimMatch)),
-				'G' => break 'motion_parse Some(MotionCmd(count, Motion::EndOfBuffer)),
+				'G' => break 'motion_parse Some(match count_given {
+					// With a count, G goes to that line
+					Some(line) => MotionCmd(line, Motion::GotoLine),
+					None => MotionCmd(1, Motion::EndOfBuffer),
+				}),
 				';' => break 'motion_parse Some(MotionCmd(count, Motion::RepeatMotion)),
 				',' => break 'motion_parse Some(MotionCmd(count, Motion::RepeatMotionRev)),
 				'|' => break 'motion_parse Some(MotionCmd(count, Motion::ToColumn)),
